@@ -185,23 +185,47 @@ def _prog_candidates(program):
     if len(names) > 1:
         for n in names:
             yield _drop_block(program, n)
+    groups = {}
     for i, op in enumerate(program["ops"]):
         if op["op"] == "chop":
+            groups.setdefault((op["target"], op["axis"]), []).append(i)
+    # drop all chops of one block direction (sections of a multi-grading go together)
+    for key, idxs in groups.items():
+        p = dict(program)
+        p["ops"] = [op for i, op in enumerate(program["ops"]) if i not in idxs]
+        yield p
+    # replace the chops of a direction by a plain count
+    for key, idxs in groups.items():
+        total = 0
+        for i in idxs:
+            c = program["ops"][i]["args"].get("count")
+            if c is None:
+                total = None
+                break
+            total += c
+        if total is None:
+            continue
+        simple = {"op": "chop", "target": key[0], "axis": key[1], "args": {"count": total}}
+        if len(idxs) == 1 and program["ops"][idxs[0]]["args"] == simple["args"]:
+            continue
+        p = dict(program)
+        p["ops"] = [simple if i == idxs[0] else op for i, op in enumerate(program["ops"]) if i == idxs[0] or i not in idxs]
+        yield p
+    # drop 'preserve' alone
+    for i, op in enumerate(program["ops"]):
+        if op["op"] == "chop" and "preserve" in op["args"]:
             p = dict(program)
-            p["ops"] = program["ops"][:i] + program["ops"][i + 1:]
+            p["ops"] = list(program["ops"])
+            p["ops"][i] = dict(op, args={k: v for k, v in op["args"].items() if k != "preserve"})
             yield p
     for i, op in enumerate(program["ops"]):
-        if op["op"] == "chop":
-            args = op["args"]
-            simple = {"count": args["count"]} if args.get("count") else None
-            if simple is not None and "length_ratio" in args:
-                simple["length_ratio"] = args["length_ratio"]
-            if simple is not None and simple != args:
-                p = dict(program)
-                p["ops"] = list(program["ops"])
-                p["ops"][i] = dict(op, args=simple)
-                yield p
         if op["op"] == "hex" and op.get("edges"):
+            if len(op["edges"]) > 1:
+                for j in range(len(op["edges"])):
+                    p = dict(program)
+                    p["ops"] = list(program["ops"])
+                    p["ops"][i] = dict(op, edges=op["edges"][:j] + op["edges"][j + 1:])
+                    yield p
             p = dict(program)
             p["ops"] = list(program["ops"])
             q = dict(op)
